@@ -4,6 +4,7 @@ import Holpy.C02.ProofsTree
 import Holpy.C02.ProofsCheck
 import Holpy.C02.ProofsTrace
 import Holpy.C02.ProofsCover
+import Holpy.C02.ProofsLevel
 /-
 C02 — helper lemmas that tie the invariants (ProofsCheck, ProofsTrace) to `checkProof` and
 `checkedExtend`.
@@ -24,12 +25,15 @@ theorem Good.mono {R : Rules} {G G' : Seq → Prop} (hG : ∀ s, G s → G' s) {
   obtain ⟨q, hq, hc⟩ := h
   exact ⟨q, hq.mono hG, hc⟩
 
-/-- The invariant at the level of `check_proof`. -/
-theorem checkProof_post {R : Rules} {cfg : Cfg} {fuel : Nat} {prf : List Item} {res : Res}
-    (hco : cfg.computeOnly = false) (h : checkProof R cfg fuel prf = .ok res) :
-    (∀ e ∈ res.trace, Good R (fun g => g ∈ res.gaps) e.th) ∧
-    (∀ (m : Nat) (it : Item) (s : Seq), res.root[m]? = some it → it.th = some s → Good R (fun g => g ∈ res.gaps) s) ∧
-    (∀ s, res.th = some s → Good R (fun g => g ∈ res.gaps) s) := by
+/-- The invariant at the level of `check_proof`, for any configuration: relative to a set `G` that
+contains every statement nobody computed (placeholders, and under `compute_only` the stated
+sequents taken on trust). -/
+theorem checkProof_post_gen {R : Rules} {cfg : Cfg} {fuel : Nat} {prf : List Item} {res : Res}
+    (h : checkProof R cfg fuel prf = .ok res) (G : Seq → Prop)
+    (hG : ∀ e ∈ res.trace, e.computed = none → G e.th) :
+    (∀ e ∈ res.trace, Good R G e.th) ∧
+    (∀ (m : Nat) (it : Item) (s : Seq), res.root[m]? = some it → it.th = some s → Good R G s) ∧
+    (∀ s, res.th = some s → Good R G s) := by
   unfold checkProof at h
   split at h
   · simp at h
@@ -39,8 +43,8 @@ theorem checkProof_post {R : Rules} {cfg : Cfg} {fuel : Nat} {prf : List Item} {
     · rename_i l hl
       simp only [Except.ok.injEq] at h
       subst h
-      have PL := checkList_post (R := R) (G := fun g => g ∈ o.gaps) (checkItem R cfg fuel) []
-        (fun root pos seq out => checkItem_post hco fuel root pos seq out) prf prf 0 o ho
+      have PL := checkList_post (R := R) (G := G) (checkItem R cfg fuel) []
+        (fun root pos seq out => checkItem_post fuel root pos seq out) prf prf 0 o ho
         (by intro k; simp [getItem_singleton])
         (by
           intro q hq
@@ -50,7 +54,7 @@ theorem checkProof_post {R : Rules} {cfg : Cfg} {fuel : Nat} {prf : List Item} {
             | nil => simp at h1; omega
             | cons x pre => cases pre <;> simp at h1
           omega)
-        (fun g hg => hg)
+        hG
       refine ⟨PL.trace, ?_, ?_⟩
       · intro m it s hit hs
         exact PL.items m (Nat.zero_le m) it (by rw [List.nil_append, getItem_singleton]; exact hit) s hs
@@ -58,6 +62,25 @@ theorem checkProof_post {R : Rules} {cfg : Cfg} {fuel : Nat} {prf : List Item} {
         have hl' : o.root[o.root.length - 1]? = some l := by
           rw [← hl, List.getLast?_eq_getElem?]
         exact PL.items (o.root.length - 1) (Nat.zero_le _) l (by rw [List.nil_append, getItem_singleton]; exact hl') s hs
+
+/-- Without `compute_only` the only statements nobody computed are the reported gaps. -/
+theorem uncomputed_are_gaps {R : Rules} {cfg : Cfg} {fuel : Nat} {prf : List Item} {res : Res}
+    (hco : cfg.computeOnly = false) (h : checkProof R cfg fuel prf = .ok res) :
+    ∀ e ∈ res.trace, e.computed = none → e.th ∈ res.gaps := by
+  intro e he hn
+  have ht := checkProof_trok h
+  rcases (ht.1 e he).2.2 hn with hr | hc
+  · rw [ht.2, gapsOf]
+    exact List.mem_map.mpr ⟨e, List.mem_filter.mpr ⟨he, by simp [hr]⟩, rfl⟩
+  · rw [hco] at hc; simp at hc
+
+/-- The invariant at the level of `check_proof` (not `compute_only`). -/
+theorem checkProof_post {R : Rules} {cfg : Cfg} {fuel : Nat} {prf : List Item} {res : Res}
+    (hco : cfg.computeOnly = false) (h : checkProof R cfg fuel prf = .ok res) :
+    (∀ e ∈ res.trace, Good R (fun g => g ∈ res.gaps) e.th) ∧
+    (∀ (m : Nat) (it : Item) (s : Seq), res.root[m]? = some it → it.th = some s → Good R (fun g => g ∈ res.gaps) s) ∧
+    (∀ s, res.th = some s → Good R (fun g => g ∈ res.gaps) s) :=
+  checkProof_post_gen h _ (uncomputed_are_gaps hco h)
 
 /-- `checked_extend` only ever appends to the theorem table and to the axiom report. -/
 theorem checkedExtend_prefix (R : List (String × Seq) → Rules) (fuel : Nat) :
